@@ -226,6 +226,20 @@ def commit_as_context(E, f, args, kwargs, body_cb):
         s.fields["cache"] = DictObj(None, None, None, None, None, name=E.fresh_name("cache"))
         raise
     C = s.fields["cache"]
+    if C.has is not None and E.ghost.get("db_write_faults") and E.nondet(2) == 1:
+        # fault model of C04 / C05: a write of the wrapped store raises instead of writing; the writes before it
+        # have been applied (a prefix of the buffered writes: the store has only grown / lost requested deletes)
+        oldh, oldv = W.has, W.val
+        E.havoc_obj(W)
+        W.writes += 1
+        k = z3.Const(E.fresh_name("k!fault"), SeqI)
+        ddt0 = dd.t if isinstance(dd, SBool) else z3.BoolVal(bool(dd))
+        E.assume(mk_bool(z3.ForAll([k], z3.Implies(z3.And(z3.Select(oldh, k), z3.Not(ddt0)),
+                                                    z3.And(z3.Select(W.has, k), z3.Select(W.val, k) == z3.Select(oldv, k))),
+                                   patterns=[z3.Select(W.has, k)])))
+        s.fields["cache"] = DictObj(None, None, None, None, None, name=E.fresh_name("cache"))
+        E.ghost["commit_failed"] = True
+        raise PyRaise(ExcObj(OSError, ("database write failed",)))
     if C.has is not None:
         Ch, Cv = C.has, C.val
         oldh, oldv = W.has, W.val
